@@ -1,5 +1,6 @@
 #!/bin/bash
-# tools/r3.sh <Cxx> <checks...> : try both round-3 seeds of a property against the given checks; logs in /tmp/r3logs
+# ROUND=<k> tools/r3.sh <Cxx> <checks...> : try both round-k seeds of a property against the given checks; logs in /tmp/r3logs
 p=$1; shift
+R=${ROUND:-3}
 mkdir -p /tmp/r3logs
-for n in 1 2; do tools/try_seed.sh /tmp/${p}_work/out3/$n "$@" > /tmp/r3logs/$p-$n.log 2>&1; cut -c1-330 /tmp/r3logs/$p-$n.log; done
+for n in 1 2; do tools/try_seed.sh /tmp/${p}_work/out$R/$n "$@" > /tmp/r3logs/$p-$n.log 2>&1; cut -c1-330 /tmp/r3logs/$p-$n.log; done
